@@ -259,6 +259,12 @@ def build(c, variant):
         cvo = rsome.norm(x, 1) + y
         m.minsup(cvo, fs)
         w.obj = ("R", [cvo])
+    elif obj_kind == "E-maxof-det":
+        # one piece WITHOUT any random variable and with a non-zero constant (stored as a linear constraint piece)
+        p1 = a @ x + zz * x[1]
+        p2 = 0.5 * y + x[0] + 1.5
+        m.minsup(rsome.E(rsome.maxof(p1, p2)), fs)
+        w.obj = ("E", [p1, p2])
     elif obj_kind == "E-maxof":
         p1 = a @ x + zz * x[1]
         p2 = y - zz
@@ -288,6 +294,12 @@ def build(c, variant):
             k2 = x[0] * zz - y
             m.st((k2 <= 5).forall(gs))
             w.R_own.append(k2 - 5)
+    elif variant.get("econstr") == "maxof-det":
+        q1 = x[1] * zz + y
+        q2 = x[0] - 2.5
+        g = c.fresh_real("g")
+        m.st(rsome.E(rsome.maxof(q1, q2)) <= g)
+        w.E.append([q1 - g, q2 - g])
     elif variant.get("econstr") == "maxof":
         # an expectation of a piecewise term as a CONSTRAINT: E(max(q1, q2)) <= g, not max(E q1, E q2) <= g
         q1 = x[1] * zz + y
@@ -398,6 +410,8 @@ VARIANTS = {
     "static,max-R-objective,expt-all,econstr": dict(obj="max-R", expt="all", econstr=True),
     "static,E-affine,expt-all,E-maxof-and-robust-constraints-with-their-own-set": dict(obj="E-affine", expt="all", econstr="own-set", own_kind="maxof", own_robust=True),
     "static,E-affine,expt-all,E-maxof-constraint": dict(obj="E-affine", expt="all", econstr="maxof"),
+    "static,E-maxof-with-a-deterministic-piece,expt-all": dict(obj="E-maxof-det", expt="all"),
+    "event,E-affine,expt-all,E-maxof-constraint-with-a-deterministic-piece": dict(obj="E-affine", expt="all", adapt="event", econstr="maxof-det"),
     "event,R-objective,expt-per-scenario,E-maxof-constraint": dict(obj="R", expt="per-scenario", adapt="event", econstr="maxof"),
     "event,E-affine,expt-all,convex-constraints": dict(obj="E-affine", expt="all", adapt="event", convex=True),
     "event-wise-bound,E-affine,expt-all,convex-constraints": dict(obj="E-affine", expt="all", adapt="event-y", convex=True),
